@@ -52,13 +52,13 @@ func (h *Handler) WithAttrs(attrs []slog.Attr) slog.Handler {
 
 // Handle implements slog.Handler.
 func (h *Handler) Handle(ctx context.Context, r slog.Record) error { //nolint:gocritic // Must use defined API
-	var result error
+	var result *errs.Error
 	for _, one := range h.handlers {
 		if one.Enabled(ctx, r.Level) {
 			result = errs.Append(result, runHandler(ctx, &r, one))
 		}
 	}
-	return result
+	return result.ErrorOrNil()
 }
 
 func runHandler(ctx context.Context, r *slog.Record, h slog.Handler) (err error) {
